@@ -1,0 +1,17 @@
+//go:build verif
+
+package antispam
+
+// Verification-only export (build tag `verif`). Nothing here is compiled into normal builds.
+
+// VerifCounters returns the current counter of every source entry. Dump() only lists the
+// sources whose counter reaches the default threshold; the C20 check needs all of them.
+func (a *Antispammer) VerifCounters() map[string]int32 {
+	a.mu.RLock()
+	defer a.mu.RUnlock()
+	out := make(map[string]int32, len(a.sources))
+	for id, s := range a.sources {
+		out[id] = s.counter.Load()
+	}
+	return out
+}
